@@ -16,13 +16,13 @@ inline bool single_kind(int k) { return k == K_PUSH_COPY || k == K_PUSH_MOVE || 
 inline bool gtal_kind(int k) { return k == K_GTAL || k == K_GTAL_VAL; }
 
 struct Op { uint8_t kind = K_PUSH_COPY; uint64_t arg = 0; uint16_t delay = 0; };
-enum { F_NONE = 0, F_CTOR = 1, F_ALLOC = 2, F_TABLE = 3 };
+enum { F_NONE = 0, F_CTOR = 1, F_ALLOC = 2, F_TABLE = 3, F_FIRST = 4 };
 struct Plan {
     int cls = 'G'; uint64_t seed = 0; int nthreads = 2;
     std::vector<Op> pre;                    // sequential prefix run by the coordinator
     std::vector<Op> ops[Pool::kMax];
     std::vector<Op> post;                   // sequential growth after the concurrent part (class M / Salloc)
-    int fault = F_NONE; long fault_at = -1; uint32_t table_delay_us = 0;
+    int fault = F_NONE; long fault_at = -1; uint32_t table_delay_us = 0; bool pre_sized_first_block = false;
     uint32_t alloc_delay_prob = 0;
 };
 inline void ops_json(Json& j, const std::vector<Op>& ops) { j.arr(); for (auto& o : ops) { j.arr(); j.val(kind_names[o.kind]); j.val((unsigned long long)o.arg); j.end_arr(); } j.end_arr(); }
@@ -31,7 +31,7 @@ inline std::string plan_json(const Plan& p) {
     j.key("prefix"); ops_json(j, p.pre);
     j.key("ops").arr(); for (int t = 0; t < p.nthreads; t++) ops_json(j, p.ops[t]); j.end_arr();
     if (!p.post.empty()) { j.key("after"); ops_json(j, p.post); }
-    j.kv("fault", p.fault == F_CTOR ? "constructor" : p.fault == F_ALLOC ? "allocation" : p.fault == F_TABLE ? "allocation of the long segment table" : "none"); j.kv("fault_at", (long long)p.fault_at);
+    j.kv("fault", p.fault == F_CTOR ? "constructor" : p.fault == F_ALLOC ? "allocation" : p.fault == F_TABLE ? "allocation of the long segment table" : p.fault == F_FIRST ? "allocation of the first block (slow)" : "none"); j.kv("fault_at", (long long)p.fault_at);
     j.kv("alloc_delay_prob_65536", (unsigned)p.alloc_delay_prob);
     j.end_obj(); return j.s;
 }
@@ -261,6 +261,29 @@ inline Plan gen_table_plan(Rng& r) {
     p.fault = F_TABLE; p.fault_at = 0; p.table_delay_us = g.chance(1, 5) ? 0 : 100 + (uint32_t)g.below(2500);
     return p;
 }
+// class F: an EMPTY vector and two threads that append one element each at the same moment (both indices lie in the first block, which
+// both threads try to allocate); one of the two allocations fails - slowly, so that the other thread has usually allocated and published
+// the block when the failure is handled. A call that returned normally keeps its element (readable through at(), same address, same value);
+// the failed call throws. Nothing else grows (further growth after a failure meets the known defects of class M).
+inline Plan gen_first_block_plan(Rng& r) {
+    Plan p; p.cls = 'F'; p.seed = r.next();
+    Rng g(p.seed);
+    p.nthreads = 2;
+    for (int t = 0; t < 2; t++) { Op o; unsigned x = (unsigned)g.below(3); o.kind = x == 0 ? K_PUSH_COPY : x == 1 ? K_PUSH_MOVE : K_EMPLACE; if (g.chance(1, 3)) o.delay = (uint16_t)g.below(1500); p.ops[t].push_back(o); }
+    p.alloc_delay_prob = 0;
+    p.fault = F_FIRST; p.fault_at = (long)g.below(2); p.table_delay_us = g.chance(1, 6) ? 0 : 20 + (uint32_t)g.below(1500);
+    if (g.chance(1, 3)) {
+        // variant: one call claims the whole two-element first block (its allocation is the one that fails), the other appends one
+        // element a little later (one only: a call that starts after another call failed may meet the known defect of class M): it lands in
+        // segment 1, an ordinary segment of the embedded table that the failure must leave alone
+        // (it did not: repaired in /repo, see DESIGN 6.3)
+        p.ops[0][0].kind = K_GROW_VAL; p.ops[0][0].arg = 2; p.ops[0][0].delay = 0;
+        p.ops[1][0].delay = (uint16_t)(300 + g.below(1200));
+        p.fault_at = 0; if (p.table_delay_us < 200) p.table_delay_us = 200 + (uint32_t)g.below(1500);
+        p.pre_sized_first_block = true;
+    }
+    return p;
+}
 inline Plan gen_plan(Rng& r, int cls, long case_index) {
     Plan p; p.cls = cls; p.seed = r.next();
     Rng g(p.seed);
@@ -453,7 +476,7 @@ inline void run_growth(Engine& E, const Plan& p, Rng& r) {
     uint64_t scn = ++E.scn;
     CtxScope cx;
     Verdict vd; Quiescent q; Sweep sw;
-    ExecCfg cfg{ cls, p.fault != F_NONE, p.fault == F_ALLOC || p.fault == F_TABLE, E.strict_gtal };
+    ExecCfg cfg{ cls, p.fault != F_NONE, p.fault == F_ALLOC || p.fault == F_TABLE || p.fault == F_FIRST, E.strict_gtal };
     ExecCfg cfg_pre{ cls, false, false, E.strict_gtal };
     for (int t = 0; t < Pool::kMax + 2; t++) E.ts[t].reset(mix(p.seed, 77 + t));
     std::vector<const CallRec*> recs; std::vector<Sample> samples;
@@ -465,6 +488,7 @@ inline void run_growth(Engine& E, const Plan& p, Rng& r) {
         cx->alloc_delay_prob.store(p.alloc_delay_prob);
         if (p.fault == F_CTOR) cx->ctor_arm.store(p.fault_at); else if (p.fault == F_ALLOC) cx->alloc_arm.store(p.fault_at);
         else if (p.fault == F_TABLE) { cx->table_delay_us.store(p.table_delay_us); cx->table_arm.store(p.fault_at); }
+        else if (p.fault == F_FIRST) { cx->table_delay_us.store(p.table_delay_us); cx->first_arm.store(p.fault_at); }
         perturb_random(r, hook_ids());
         hc.phase.store(1);
         E.pool.run(p.nthreads, [&](int t) {
@@ -473,7 +497,7 @@ inline void run_growth(Engine& E, const Plan& p, Rng& r) {
             for (const Op& o : p.ops[t]) { if (o.delay) spin_iters(o.delay); exec_op(v, o, t, k++, scn, ts, cfg); progress(); }
         });
         perturb().clear();
-        cx->ctor_arm.store(-1); cx->alloc_arm.store(-1); cx->table_arm.store(-1); cx->alloc_delay_prob.store(0);
+        cx->ctor_arm.store(-1); cx->alloc_arm.store(-1); cx->table_arm.store(-1); cx->first_arm.store(-1); cx->alloc_delay_prob.store(0);
         T0.tid = kPostTid;
         if (!p.post.empty()) {
             hc.phase.store(2);
@@ -488,8 +512,15 @@ inline void run_growth(Engine& E, const Plan& p, Rng& r) {
             gtal_short += ts.gtal_short; gtal_returns += ts.gtal_returns; own_checked += ts.own_checked;
             if (!ts.fail_what.empty()) vd.fail(ts.fail_what, ts.fail_detail);
         }
-        if (vd.ok()) verify_quiescent(v, *cx.c, recs, samples, cls == 'T' ? 'M' : cls, vd, q);
-        if (vd.ok() && (cls == 'M' || cls == 'T')) sweep_at(v, *cx.c, vd, sw, cls);
+        if (cls == 'F' && vd.ok()) {
+            // a call that returned normally keeps its element: at() must hand it out (checked before anything dereferences operator[])
+            for (auto* rc : recs) if (rc->outcome == O_OK && rc->count >= 1) for (uint64_t j = 0; j < rc->count && vd.ok(); j++) {
+                try { const Elem& e = v.at((size_t)(rc->start + j)); if (!e.sane() || e.v != expected_value(*rc, j)) vd.fail("element-of-successful-call-damaged", rec_str(*rc) + ": at() hands out " + hex64(e.v) + "/" + hex64(e.chk)); }
+                catch (std::exception& ex) { vd.fail("element-of-successful-call-lost", rec_str(*rc) + ": the call returned normally, afterwards at(" + std::to_string(rc->start + j) + ") throws " + ex.what() + " (size() = " + std::to_string(v.size()) + ", capacity() = " + std::to_string(v.capacity()) + ")"); }
+            }
+        }
+        if (vd.ok()) verify_quiescent(v, *cx.c, recs, samples, (cls == 'T' || cls == 'F') ? 'M' : cls, vd, q);
+        if (vd.ok() && (cls == 'M' || cls == 'T' || cls == 'F')) sweep_at(v, *cx.c, vd, sw, cls);
         T0.tid = -1;
     }   // the vector is destroyed here
     Ctx& c = *cx.c;
@@ -498,13 +529,13 @@ inline void run_growth(Engine& E, const Plan& p, Rng& r) {
     long dz = c.unconstructed_destroyed_zero.load(), dg = c.unconstructed_destroyed_garbage.load();
     if (cls == 'G' && (dz || dg)) vd.fail("destroyed-unconstructed-slot", "the destructor destroyed " + std::to_string(dz + dg) + " slots that were never constructed although no call failed");
     if (dg) {
-        if (p.fault == F_ALLOC && c.alloc_fired.load()) {
+        if ((p.fault == F_ALLOC || p.fault == F_FIRST) && c.alloc_fired.load()) {
             R.stat(C + "_unconstructed_slots_destroyed", dg);
             if (E.emit_uninit && first_time(key_of(cls, "unconstructed-slot-destroyed"))) R.violation(key_of(cls, "unconstructed-slot-destroyed"), "after an allocation failure the destructor ran on " + std::to_string(dg) + " slots that were neither constructed nor zero-filled", pj);
         } else if (cls != 'G') vd.fail("raw-slot-after-ctor-throw-destroyed", "the destructor ran on " + std::to_string(dg) + " slots that were neither constructed nor zero-filled (only a constructor was made to throw)");
     }
     if (sw.raw) {
-        if (p.fault == F_ALLOC && c.alloc_fired.load()) {
+        if ((p.fault == F_ALLOC || p.fault == F_FIRST) && c.alloc_fired.load()) {
             R.stat(C + "_unconstructed_slots_accessible", sw.raw);
             if (E.emit_uninit && first_time(key_of(cls, "unconstructed-slot-accessible"))) R.violation(key_of(cls, "unconstructed-slot-accessible"), "after an allocation failure at() hands out " + std::to_string(sw.raw) + " slots below size() that are neither constructed nor zero-filled", pj);
         } else vd.fail("raw-slot-after-ctor-throw-accessible", "at() hands out " + std::to_string(sw.raw) + " slots below size() that are neither constructed nor zero-filled (only a constructor was made to throw)");
@@ -524,6 +555,10 @@ inline void run_growth(Engine& E, const Plan& p, Rng& r) {
     if (p.fault != F_NONE) {
         R.stat(C + "_calls_ended_by_exception", excs);
         if (c.ctor_fired.load()) R.stat(C + "_ctor_faults_fired"); if (c.alloc_fired.load()) R.stat(C + "_alloc_faults_fired");
+        if (c.first_fired.load()) {
+            long ok_calls = calls - excs;
+            R.stat("F_first_block_allocation_failed"); if (p.pre_sized_first_block && ok_calls >= 1) R.stat("F_call_into_segment_1_or_2_succeeded_while_the_first_block_failed"); R.stat(ok_calls == 1 ? "F_other_call_succeeded_and_kept_its_element" : ok_calls == 0 ? "F_both_calls_threw" : "F_both_calls_succeeded");
+        }
         if (c.table_fired.load()) { R.stat("T_table_allocation_failed"); if (excs >= 2) R.stat("T_scenarios_where_other_calls_threw_too"); R.stat("T_calls_ended_by_exception_besides_the_allocating_one", std::max(0L, excs - 1)); }
         if (!c.ctor_fired.load() && !c.alloc_fired.load()) R.stat(C + "_fault_not_reached");
         R.stat(C + "_holes_zero_filled", q.holes_zero + sw.zero); R.stat(C + "_at_ok", sw.ok); R.stat(C + "_at_threw", sw.threw);
